@@ -2,7 +2,7 @@ SPECIFICATION Spec
 CONSTANTS
   Classes = {"OwnBare", "OwnBareCase", "OwnFullSelf", "OwnFullOther", "OwnBareSlash", "OwnBareSpace", "Domain", "SuffixLookalike", "PrefixLookalike", "Truncated", "Empty", "Contact", "ContactFull", "OwnAsResource", "Homoglyph", "PreviousOwnBare"}
   Wrappers = {"none", "sent", "received", "sentBody", "recvBody", "privSent", "both", "nestedSent", "nestedRecv", "emptyCarbon", "fwdWrongNs", "msgWrongNs", "fwdOnly", "wrongNs"}
-  Inners = {"chatIn", "chatOut", "spoof", "noBody", "error", "rich"}
+  Inners = {"chatIn", "chatOut", "spoof", "noBody", "error", "rich", "private", "noCopy", "delay", "headline", "groupchat", "fwdInside"}
   Gens = {"v1", "v2"}
   JidCfgs = {"plain", "nores", "mixed"}
   Hows = {"setJid", "setUserDomain", "assign", "copySetJid"}
